@@ -59,10 +59,18 @@ T = {
  "C17c": ("C17", "constraint declared through addItemFromParamId with iv1 >= 1 (Range V/W, 2nd/3rd angle) on an anisotropic fit", "C17 quick (after adding part constraint_routes: every declaration route x element x iv1; missed before)", "constraint-route:addItemFromParamId:angle:iv1=2:not-applied"),
  "C09c": ("C09", "CSV file of 0, 1 or 2 bytes (loader never returns)", "C09 quick", "PolygonsCSV:truncated:exception-or-exhaustion"),
  "C13c": ("C13", "conditional multivariate simtub, heterotopic datum (earlier variable undefined) on a target, model with nugget", "C13 quick (after adding part simtub_hetero; missed before)", "simtub:hetero:grid-target"),
- "C14c": ("C14", "turning bands (spectral method structures) on a grid whose selection masks a node followed by an active node in the same row", "MISSED by C14 quick at the time of seeding; harness extension requested", ""),
- "C18c": ("C18", "the same PCA object computed twice (stale accumulators)", "MISSED by C18 quick at the time of seeding (fresh object per case); harness extension requested", ""),
+ "C14c": ("C14", "turning bands (spectral method structures) on a grid whose selection masks a node followed by an active node in the same row", "C14 quick (after adding the selection axis to tb_grid_vs_points; missed before)", "tb:grid-masked-vs-unmasked:GAUSSIAN"),
+ "C18c": ("C18", "the same PCA object computed twice (stale accumulators)", "C18 quick (after adding part reuse judging the C18 clauses on refitted objects; missed before)", "reuse:pca:pca>pca:factor-mean"),
  "C19c": ("C19", "xvalid with flag_est=0, flag_std!=0 on multivariate data (pre-existing columns overwritten)", "C19 quick (after adding part flags: all output-flag combinations x nvar; missed before)", "success-changes-old-values:xvalid"),
  "C20c": ("C20", "vertices replaced through setX/setY on an existing PolyElem/Polygons (stale cached bounding box)", "C20 quick (after adding the history_polyelem/history_polygons parts; missed before)", "history:PolyElem:inside-after:setX+setY"),
+ "C01d": ("C01", "anisotropic structure whose scales differ by < 1e-3 in coordinate units (all lengths in a small unit): absolute-tolerance isotropy shortcut in the kriging projection", "MISSED by C01 quick at the time of seeding (O(1) lengths only); scale axis requested", ""),
+ "C02d": ("C02", "drift list not closed under translation ({1,x^2}, {1,xy}...) and a field whose lower corner is not at 0", "C02 quick", "unbiased:monomial:drift:multivar:unique"),
+ "C03d": ("C03", "zonal anisotropy (range ratio >= 1e6) whose long axis is not aligned with a coordinate axis, plain evaluation path", "MISSED by C03 quick at the time of seeding (ratios <= 10); extreme-parameter part requested", ""),
+ "C05d": ("C05", "facies variable + selection where the largest label occurs only at masked samples (getFaciesNumber, dbStatisticsFacies, computeIndic)", "MISSED by C05 quick at the time of seeding (facies statistics not in the operation list); sweep requested", ""),
+ "C06d": ("C06", "K-fold cross-validation with a target Db different from the input Db and different codes", "MISSED by C06 quick at the time of seeding (xvalid part uses dbout = dbin); extension requested", ""),
+ "C07d": ("C07", "setLocators with a name list designating one column twice, the literal name coming second", "MISSED by C07 quick at the time of seeding (vector arguments never repeat an element); extension requested", ""),
+ "C08d": ("C08", "negative Db value needing 15 digits with a three-digit exponent (22-character text)", "MISSED by C08 quick at the time of seeding (value menu lacks the longest texts); extension requested", ""),
+ "C10d": ("C10", "mvndst with every variable unbounded or an invalid count leaves the generator on its internal seed", "MISSED by C10 quick at the time of seeding (generator state after non-random calls not judged); extension requested", ""),
  "C09b": ("C09", "24/32-bit BMP whose colour-count header field exceeds 256", "C09 quick (after adding the binary grid readers with header-field faults; missed before)", "GridBmp:header-field:biClrUsed=small:memory-error"),
 }
 for seed, (prop, needs, caught, key) in T.items():
